@@ -33,6 +33,14 @@ type peekConnection struct {
 	m      sync.Mutex
 }
 
+// CloseWrite passes a half-close on to the wrapped connection; it fails if that cannot do it.
+func (pc *peekConnection) CloseWrite() error {
+	if cw, ok := pc.Conn.(interface{ CloseWrite() error }); ok {
+		return cw.CloseWrite()
+	}
+	return errNoHalfClose
+}
+
 func (pc *peekConnection) Peek(p []byte) (int, error) {
 	pc.m.Lock()
 	defer pc.m.Unlock()
